@@ -222,11 +222,13 @@ def do_large_array(v0, v1, v2, budget):
         logix.Logix.MAX_BYTES = saved
 
 
-define(globals(), 'C14', 'unconnected_multiread', AV + ['b0', 'b1', 'i', 'n', 's0'], "return do_multiread([%s], b0, b1, i, n, s0)" % ", ".join(AV),
-       [APRE, '-2**31 <= b0 < 2**31 and -2**31 <= b1 < 2**31 and -128 <= s0 <= 127', '0 <= i <= %d and 0 <= n <= %d' % (N, N + 1)],
-       timeout=3000, path_timeout=600, drives=DRIVES, stubs=STUBS,
-       bounds='reference-encoded unconnected bundled multi-tag read (INT range valid or beyond the end, DINT, unknown tag, SINT) with symbolic contents, start and '
-              'count; every embedded reply decoded by the reference decoder carries the values of the array model / the documented error status', outside='')
+for _i, _n in ((0, 5), (3, 4), (2, 1), (1, 0), (4, 1), (5, 1)):
+    define(globals(), 'C14', 'unconnected_multiread_%d_%d' % (_i, _n), AV + ['b0', 's0'], "return do_multiread([%s], b0, 7, %d, %d, s0)" % (", ".join(AV), _i, _n),
+           [APRE, '-2**31 <= b0 < 2**31 and -128 <= s0 <= 127'], tier='quick' if (_i, _n) in ((0, 5), (3, 4)) else 'thorough',
+           timeout=3000, path_timeout=600, drives=DRIVES, stubs=STUBS,
+           bounds='reference-encoded unconnected bundled multi-tag read [A[%d] x %d (%s), B, unknown tag, S] with symbolic tag contents; every embedded reply decoded by '
+                  'the reference decoder carries the values of the array model / the documented error status' % (_i, _n, 'valid' if _n >= 1 and _i + _n <= N else 'beyond the end / empty'),
+           outside='other index shapes')
 for _b in (20, 24, 30):
     define(globals(), 'C14', 'unconnected_large_array_budget%d' % _b, ['v0', 'v1', 'v2'], "return do_large_array(v0, v1, v2, %d)" % _b,
            ['-32768 <= v0 <= 32767 and -32768 <= v1 <= 32767 and -32768 <= v2 <= 32767'], tier='quick' if _b == 24 else 'thorough',
